@@ -121,7 +121,8 @@ def pde_terms(F, state, kw, r, t, gamma):
             pr = np.where(rho != 0, p_r / rho, 0.0)
             por = np.where(rho != 0, p / rho, 0.0)
         out["mom"] = ([u_t, u * u_r, pr], 1e-3 * S * S / r)
-        out["ener"] = ([e_t, u * e_r, por * u_r, por * k * u / r], 1e-3 * S ** 3 / r)
+        # the scale of the energy equation is (e + p/rho) S / r, not S^3 / r: in a hypersonic flow S^3 would drown every term
+        out["ener"] = ([e_t, u * e_r, por * u_r, por * k * u / r], 1e-3 * (np.abs(e) + np.abs(por)) * S / r)
     else:
         G = kw["Gamma"]
         T = f0["T"]
@@ -159,7 +160,7 @@ def pde_terms(F, state, kw, r, t, gamma):
                     terms = [np.where(zero, 0.0, k / r), np.where(zero, 0.0, al * lr),
                              np.where(zero, 0.0, (be + 3) * T_r / T), q]
                 out["flux"] = (terms, 1e-3 / r)
-        out["ener"] = ([cv * T_t, cv * u * T_r, G * T * u_r, G * T * k * u / r, fl], 1e-3 * S ** 3 / r)
+        out["ener"] = ([cv * T_t, cv * u * T_r, G * T * u_r, G * T * k * u / r, fl], 1e-3 * (cv + G) * np.abs(T) * S / r)
     return out, 3 * h, ht
 
 
